@@ -171,7 +171,7 @@ def run_case(case):
         qs[:len(wq[:4])] = wq[:4]
     if rng.random() < 0.5 and conds and not wq:
         qs[0] = conds[0]                     # the first rule as a query (direct inference)
-    if order_matters or (tname == 'compose' and rng.random() < 0.5):
+    if order_matters or (tname in ('compose', 'rekey0', 'rekey-sparse') and rng.random() < 0.5):
         for qi in (2, 3, 4):
             q = falsified_exception_query(rng, sig, conds)
             if q is not None:
@@ -189,6 +189,8 @@ def run_case(case):
     def t_rekey0():
         nonlocal keys2
         keys2 = list(range(0, n))
+        if rng.random() < 0.5:
+            rng.shuffle(keys2)                 # 0-based, not in listing order (key 0 may belong to an exception)
         tdesc['keys'] = keys2
 
     def t_sparse():
